@@ -356,7 +356,7 @@ func processViolations(s *scratch, spec *propSpec, b budget, files []string, shr
 		bySig[sig] = append(bySig[sig], f)
 	}
 	sort.Strings(order)
-	os.MkdirAll(filepath.Join(verifDir, "replays"), 0o755)
+	os.MkdirAll(filepath.Join(outDir(), "replays"), 0o755)
 	res := make([]confirmed, len(order))
 	errs := make([]error, len(order))
 	var wg sync.WaitGroup
@@ -401,37 +401,46 @@ func processOne(s *scratch, spec *propSpec, b budget, bin, sig string, cands []s
 			return []string{"GORACE=halt_on_error=0 exitcode=66 history_size=7 log_path=" + filepath.Join(s.dir, "race", fmt.Sprintf("p%d-%s", idx, tag))}
 		}
 		// 1. confirm in a fresh process (strict replay)
-		attempts, hits := 1, 0
-		if isRace {
-			attempts = 5
-		}
+		attempts, hits := 6, 0
+		sameLogNoViolation := false
 		var lastOut string
+		tried := 0
 		for a := 0; a < attempts && hits == 0; a++ {
 			out, code := runTool(bin, raceEnv(fmt.Sprintf("confirm%d", a)), "replay", f)
 			lastOut = out
+			tried++
 			if strings.Contains(out, "same_class=true") && (code == 1 || code == 66) {
 				hits++
+			} else if !isRace && (strings.Contains(out, "same_loghash=true") || (code == 0 && strings.Contains(out, "loghash="+rf.EventLogHash))) {
+				// the same execution (same event log and results) without the violation: the oracle itself is not a function of the run
+				sameLogNoViolation = true
+				break
 			}
 			if code == 2 || code < 0 {
 				return confirmed{}, fmt.Errorf("replay of %s failed (exit %d):\n%s", f, code, out)
 			}
 		}
-		note := fmt.Sprintf("confirmed in a fresh process (%d attempt(s))", attempts)
+		note := fmt.Sprintf("confirmed in a fresh process (attempt %d)", tried)
 		if hits == 0 {
-			if !isRace {
-				return confirmed{}, fmt.Errorf("violation %s from %s did not reproduce in a fresh process - harness nondeterminism, refusing to report:\n%s", sig, f, lastOut)
+			if sameLogNoViolation {
+				return confirmed{}, fmt.Errorf("violation %s from %s: a fresh process reproduced the same event log but not the violation - the harness's oracle is nondeterministic, refusing to report:\n%s", sig, f, lastOut)
 			}
-			note = fmt.Sprintf("race report did not recur in %d fresh-process replays (std-internal pools can mask it, DESIGN 2.3); reported from the batch run", attempts)
+			if isRace {
+				note = fmt.Sprintf("race report did not recur in %d fresh-process replays (std-internal pools can mask it, DESIGN 2.3); reported from the batch run", tried)
+			} else {
+				note = fmt.Sprintf("observed in the batch run by a per-execution oracle, but %d fresh-process replays took a different execution (event log differs): the code under test is nondeterministic beyond the simulator's seams; the replay file reproduces the plan and schedule, not necessarily the violation", tried)
+			}
+			shrinkBudget = 0
 		}
 		// 2. minimise
-		final := filepath.Join(verifDir, "replays", filepath.Base(f))
+		final := filepath.Join(outDir(), "replays", filepath.Base(f))
 		min := filepath.Join(s.dir, "min-"+filepath.Base(f))
 		use := f
 		out, code := "", 3
 		if shrinkBudget > 0 {
 			out, code = runTool(bin, raceEnv("shrink"), "shrink", "-budget", shrinkBudget.String(), "-out", min, f)
 		} else {
-			note += "; not minimised (more than six distinct signatures in this run)"
+			note += "; not minimised"
 		}
 		if code == 3 {
 		} else if code == 0 || code == 66 {
